@@ -737,3 +737,172 @@ def _sx(e):
             return "(" + e[0] + " " + " ".join(_sx(x) for x in e[1:]) + ")"
         return "[" + ", ".join(_sx(x) for x in e) + "]"
     return json.dumps(e)
+
+
+# ---------------------------------------------------------------------------
+# "bare" programs: the generative function under test is a distribution or a
+# combinator used directly (no enclosing @gen function).  The spec is a wrapper
+# program with exactly one addressed statement; the adapter below exposes the
+# bare generative function through the same interface as a built Fn, wrapping
+# and unwrapping the single address, so that every oracle written against
+# wrapper choice maps {addr: ...} applies unchanged.
+# ---------------------------------------------------------------------------
+def _register_bare_trace():
+    import jax
+
+    @jax.tree_util.register_pytree_node_class
+    class BareTrace:
+        def __init__(self, inner, call_args, addr):
+            self.inner = inner
+            self.call_args = call_args
+            self.addr = addr
+
+        def tree_flatten(self):
+            return (self.inner, self.call_args), self.addr
+
+        @classmethod
+        def tree_unflatten(cls, addr, children):
+            return cls(children[0], children[1], addr)
+
+        @property
+        def _choices(self):
+            return {self.addr: self.inner}
+
+        def get_choices(self):
+            return {self.addr: self.inner.get_choices()}
+
+        def get_score(self):
+            return self.inner.get_score()
+
+        def get_retval(self):
+            return self.inner.get_retval()
+
+        def get_args(self):
+            # the wrapper's own parameters, in the (args, kwargs) convention of traces
+            return (tuple(self.call_args), {})
+
+        def get_gen_fn(self):
+            return self.inner.get_gen_fn()
+
+    return BareTrace
+
+
+_BARE_TRACE = None
+
+
+class BareGF:
+    """Adapter around a bare distribution / Vmap / Scan / Cond (see above)."""
+
+    def __init__(self, prog):
+        import jax.numpy as jnp
+        from genjax import Cond, Scan, const
+
+        global _BARE_TRACE
+        if _BARE_TRACE is None:
+            _BARE_TRACE = _register_bare_trace()
+        self.prog = prog
+        self.E = Evaluator(jnp, False)
+        (st,) = [s for s in prog["body"] if s["k"] != "let"]
+        self.st = st
+        self.addr = st["addr"]
+        k = st["k"]
+        if k == "site":
+            self.gf = real_dist(st["dist"], st["tag"])
+        elif k == "vmap":
+            cal = st["callee"]
+            inner = real_dist(cal["dist"], cal["tag"]) if "dist" in cal else build(cal)
+            kw = {}
+            if st.get("axis_size") is not None:
+                kw["axis_size"] = st["axis_size"]
+            self.gf = inner.repeat(st["axis_size"]) if st.get("use_repeat") else inner.vmap(in_axes=_in_axes(st), **kw)
+        elif k == "scan":
+            self.gf = Scan(build(st["step"]), length=const(st["length"]))
+        elif k == "cond":
+            self.gf = Cond(build(st["T"]), build(st["F"]))
+        else:
+            raise ValueError(k)
+
+    def call_args(self, params):
+        env = dict(zip(self.prog["params"], params))
+        for s in self.prog["body"]:
+            if s["k"] == "let":
+                env[s["var"]] = self.E.ev(s["e"], env)
+        st = self.st
+        if st["k"] == "scan":
+            return (self.E.ev(st["init"], env), self.E.ev(st["xs"], env))
+        a = [self.E.ev(x, env) for x in st.get("args", [])]
+        if st["k"] == "cond":
+            return (self.E.ev(st["pred"], env), *a)
+        return tuple(a)
+
+    def _wrap(self, tr, params):
+        return _BARE_TRACE(tr, tuple(params), self.addr)
+
+    def simulate(self, *params):
+        return self._wrap(self.gf.simulate(*self.call_args(params)), params)
+
+    def assess(self, x, *params):
+        return self.gf.assess(x[self.addr], *self.call_args(params))
+
+    def log_density(self, x, *params):
+        return self.gf.log_density(x[self.addr], *self.call_args(params))
+
+    def generate(self, x, *params):
+        sub = None if x is None else x.get(self.addr)
+        tr, w = self.gf.generate(sub, *self.call_args(params))
+        return self._wrap(tr, params), w
+
+    def update(self, tr, x, *params):
+        sub = None if x is None else x.get(self.addr)
+        new, w, discard = self.gf.update(tr.inner, sub, *self.call_args(params))
+        return self._wrap(new, params), w, {self.addr: discard}
+
+    def regenerate(self, tr, sel, *params):
+        _, sub = sel.match(self.addr)
+        new, w, discard = self.gf.regenerate(tr.inner, sub, *self.call_args(params))
+        return self._wrap(new, params), w, ({self.addr: discard} if discard is not None else None)
+
+    def filter(self, x, sel):
+        _, sub = sel.match(self.addr)
+        a, b = self.gf.filter(x[self.addr], sub)
+        return (None if a is None else {self.addr: a}), (None if b is None else {self.addr: b})
+
+
+_build_fn = build
+
+
+def build(prog):  # noqa: F811  (dispatching wrapper around the Fn builder)
+    if prog.get("bare"):
+        return BareGF(prog)
+    return _build_fn(prog)
+
+
+def bare_program(gen: "Generator"):
+    """A wrapper spec with exactly one addressed statement (site | vmap | scan | cond)."""
+    rng = gen.rng
+    gen.tag = 0
+    gen.used_sizes = set()
+    for _ in range(20):
+        sc = Scope(gen, 0)
+        sc.fresh_param(("f", ()))
+        kind = str(rng.choice(["site", "vmap", "vmap", "scan", "cond", "cond"]))
+        getattr(gen, "stmt_" + kind)(sc)
+        body = [s for s in sc.body]
+        main = [s for s in body if s["k"] != "let"]
+        if len(main) != 1:
+            continue
+        st = main[0]
+        # drop the helper lets that stmt_scan appends after the scan statement
+        body = [s for s in body if s is st or (s["k"] == "let" and body.index(s) < body.index(st))]
+        if st["k"] == "scan":
+            ret = ["v", st["addr"]]
+        else:
+            ret = ["v", st["addr"]]
+        return {
+            "params": [n for n, _ in sc.params],
+            "ptypes": [[t[0], list(t[1])] for _, t in sc.params],
+            "body": body,
+            "ret": ret,
+            "bare": True,
+        }
+    raise RuntimeError("could not generate a bare program")
